@@ -218,6 +218,11 @@ rebuild:
 		}
 		fmt.Fprintf(&sb, "}, %s.VerifRegistry)\n", r.Name)
 		fmt.Fprintf(&sb, "\tharness.SetBase(%q, %q, %q)\n", r.Name, m.Base, m.BasePath)
+		if r.GoStmts > 0 || r.ChanOps > 0 || r.Selects > 0 {
+			// orderings made by goroutines and channels of the generated code itself are not modelled:
+			// the happens-before race detector stays off for this package rather than guess
+			fmt.Fprintf(&sb, "\tharness.SetNoRace(%q)\n", r.Name)
+		}
 	}
 	sb.WriteString("}\n")
 	if err := os.WriteFile(filepath.Join(simDir, "cmd", "rtsim", "registry_gen.go"), []byte(sb.String()), 0o644); err != nil {
@@ -238,8 +243,10 @@ rebuild:
 		pruneCache(6)
 	}
 	// the generated sources are no longer needed
-	os.RemoveAll(simDir)
-	os.RemoveAll(repoCopy)
+	if os.Getenv("VERIF_KEEP_SCRATCH") == "" {
+		os.RemoveAll(simDir)
+		os.RemoveAll(repoCopy)
+	}
 	return b
 }
 
